@@ -9,6 +9,20 @@ MODELLED = ('Trusted: Coq 8.16.1 kernel (no axioms: every theorem in coq/Props/%
             'the Python harness abstraction/canonicalisation. ')
 
 CHECKS = {
+    'C04': dict(
+        text='Theorems over an executable Gallina model of check_strings/wrong_content/wrong_number/can_ignore/'
+             'check_patterns and the string/file entry points: verdict = Pass <-> the declarative rule of the '
+             'property (for all option records, pattern oracles and line lists), identical content always passes, '
+             'length mismatch and unexcused differences fail, universal-newline reading preserves the line list. '
+             'The extracted model is compared with FilesComparison.check_strings and the three assertion entry '
+             'points (real files) on generated near-miss pairs; an independent restatement of the rule is the oracle.',
+        note='re.match on user ignore_patterns is an oracle table (computed with CPython re for every reachable '
+             'substring); str.isspace/splitlines boundary tables are regenerated from the running interpreter; file '
+             'I/O and encodings are modelled, validated by the entry-point layer. Known finding: pattern recursion '
+             'can be unbounded (RecursionError).',
+        technique='Coq proof (check_strings_spec iff, refl_passes, plain_sensitive, splitlines_univ_nl) + '
+                  'extracted-model correspondence incl. reconstructions',
+        design='7 C04'),
     'C16': dict(
         text='Theorem over the executable model of the CSVW date-format translation (all field lists of any length, all documented separators), with the replacement chain regenerated from the source by the translator on every run; exact-string correspondence of the extracted model with csvw_date_format_to_md_date_format; an end-to-end oracle writes typed tables with CSVW metadata and reloads them with csv2pandas.',
         note='pandas read_csv / strptime semantics of the produced format and the metadata plumbing (CSVWMetadata, to_pandas_read_csv_args) are not modelled: covered by the round-trip oracle only (partial).',
